@@ -77,6 +77,8 @@ def load_merchant_rules(csv_path):
             except ModifierParseError:
                 # Invalid modifier syntax - use pattern as-is without modifiers
                 parsed = ParsedPattern(regex_pattern=pattern_str)
+            # CSV patterns are regular expressions, whatever they look like
+            parsed.is_expression = False
 
             # Parse tags (optional, pipe-separated)
             tags_str = row.get('Tags') or ''
@@ -174,7 +176,7 @@ def get_all_rules(rules_path=None, match_mode='first_match'):
                     # This allows amount/date conditions like "regex(...) and amount == 1500" to work
                     pattern = rule.match_expr
                     regex_pattern = _expr_to_regex(rule.match_expr)
-                    parsed = ParsedPattern(regex_pattern=regex_pattern)
+                    parsed = ParsedPattern(regex_pattern=regex_pattern, is_expression=True)
                     user_rules_with_source.append((
                         pattern,          # Full expression (for expr matching)
                         rule.name,        # merchant name
@@ -614,7 +616,7 @@ def normalize_merchant(
             # Check if rule matches
             matches = False
 
-            if _is_expression_pattern(pattern):
+            if _is_expression_pattern(pattern, parsed):
                 # Use expression parser for expression-based rules
                 matches = expr_parser.matches_transaction(pattern, transaction, data_sources=data_sources)
             else:
@@ -674,9 +676,17 @@ def normalize_merchant(
     return (merchant_name, 'Unknown', 'Unknown', None)
 
 
-def _is_expression_pattern(pattern: str) -> bool:
-    """Check if a pattern is an expression (uses function syntax) vs a regex."""
+def _is_expression_pattern(pattern: str, parsed: Optional[ParsedPattern] = None) -> bool:
+    """Check if a pattern is an expression (uses function syntax) vs a regex.
+
+    Rules loaded from a file carry their origin in parsed.is_expression (.rules match
+    expression or CSV regular expression); only rules of unknown origin are guessed
+    from the text, because a CSV regex such as (UBER|LYFT) or "A or B" looks like an
+    expression and would otherwise be skipped as an invalid one.
+    """
     import re
+    if parsed is not None and getattr(parsed, 'is_expression', None) is not None:
+        return parsed.is_expression
     # Expression patterns start with:
     # - Function calls like contains(), normalized(), extract(), etc.
     # - Field access like field.txn_type
@@ -805,7 +815,7 @@ def explain_description(
 
         try:
             # Determine if this is an expression pattern or a regex pattern
-            if _is_expression_pattern(pattern):
+            if _is_expression_pattern(pattern, parsed):
                 # Use expression parser for expression-based rules
                 # Use the already-transformed transaction
                 matches = expr_parser.matches_transaction(pattern, transaction)
